@@ -681,7 +681,7 @@ func (c *Ctx) checkBucketCacheGet(rule string) {
 			}
 			var visit func(v ssa.Value, at ssa.Instruction, via *ssa.BasicBlock, seen map[ssa.Value]bool)
 			visit = func(v ssa.Value, at ssa.Instruction, via *ssa.BasicBlock, seen map[ssa.Value]bool) {
-				v = stripConv(v)
+				v = canon(stripConv(v))
 				if seen[v] {
 					return
 				}
@@ -872,37 +872,23 @@ func (c *Ctx) edgeReturnsFalse(b *ssa.BasicBlock, onTrue bool) bool {
 // coversAll: idx is the induction variable of `for i := 0; i < len(s); i++` (phi of 0 and i+1,
 // loop condition i < len(one of the slices)).
 func coversAll(idx ssa.Value, sx, sy map[ssa.Value]bool) bool {
-	phi, ok := idx.(*ssa.Phi)
-	if !ok || len(phi.Edges) != 2 {
+	var fn *ssa.Function
+	if in, ok := idx.(ssa.Instruction); ok {
+		fn = in.Parent()
+	}
+	if fn == nil {
 		return false
 	}
-	zero, step := false, false
-	for _, e := range phi.Edges {
-		if k, isK := constInt(e); isK && k == 0 {
-			zero = true
+	// the index is the induction variable of a loop that runs over every index of one of the two
+	// slices (classic index loop or range loop, see fullIndexLoops)
+	for _, fl := range fullIndexLoops(fn) {
+		if fl.idx != idx {
+			continue
 		}
-		if bo, isB := e.(*ssa.BinOp); isB && bo.Op == token.ADD && bo.X == ssa.Value(phi) {
-			if k, isK := constInt(bo.Y); isK && k == 1 {
-				step = true
-			}
+		a := fl.lenArg
+		if sx[canon(a)] || sy[canon(a)] || sx[stripConv(a)] || sy[stripConv(a)] {
+			return true
 		}
 	}
-	if !zero || !step {
-		return false
-	}
-	// loop condition in the phi's block: i < len(s)
-	iff, isIf := condOf(phi.Block())
-	if !isIf {
-		return false
-	}
-	op, x, y, isCmp := cmpOf(iff.Cond)
-	if !isCmp || op != token.LSS || x != ssa.Value(phi) {
-		return false
-	}
-	ln, isLn := stripConv(y).(*ssa.Call)
-	if !isLn || !isBuiltin(ln, "len") {
-		return false
-	}
-	a := ln.Call.Args[0]
-	return sx[canon(a)] || sy[canon(a)] || sx[stripConv(a)] || sy[stripConv(a)]
+	return false
 }
